@@ -220,6 +220,92 @@ theorem acknowledge_ok (s : Settings) (h : SettingsOk s) : SettingsOk (Settings.
   · rw [List.all_map]; rw [List.all_eq_true] at h3 ⊢
     intro e he; exact popEntry_ok e (h3 e he)
 
+/-! ### every stored value fits a SETTINGS frame -/
+
+def optU32 (o : Option Int) : Bool :=
+  match o with
+  | none => true
+  | some v => decide (0 ≤ v) && decide (v ≤ 4294967295)
+
+/-- every stored value (current or pending) fits the 32 bits a SETTINGS frame gives it; the local settings keep this
+    (`update_settings` checks the range before it stores anything), so the frame `initiate_connection` builds from them
+    can always be serialised -/
+def LS32 (s : Settings) : Prop := (s.all fun e => e.2.all optU32) = true
+
+theorem ls32_init_cl : LS32 (Settings.ofInit client_local_settings) := by unfold LS32; decide
+theorem ls32_init_sl : LS32 (Settings.ofInit server_local_settings) := by unfold LS32; decide
+
+theorem ls32_append (s : Settings) (k v : Int) (h : LS32 s) (hv : 0 ≤ v ∧ v ≤ 4294967295) : LS32 (Settings.append s k v) := by
+  unfold LS32 Settings.append at *
+  have hv' : optU32 (some v) = true := by simp [optU32, hv.1, hv.2]
+  split
+  · rw [List.all_map]
+    rw [List.all_eq_true] at h ⊢
+    intro e he
+    have := h e he
+    simp only [Function.comp]
+    split
+    · simp only [List.all_append, List.all_cons, List.all_nil, Bool.and_true, Bool.and_eq_true]
+      exact ⟨this, hv'⟩
+    · exact this
+  · rw [List.all_append, h]
+    simp [optU32, hv.1, hv.2]
+
+theorem ls32_setItem (s : Settings) (k v : Int) (h : LS32 s) (hv : 0 ≤ v ∧ v ≤ 4294967295) (s' : Settings)
+    (hs : Settings.setItem s k v = .ok s') : LS32 s' := by
+  unfold Settings.setItem at hs
+  split at hs
+  · split at hs
+    · cases hs
+    · injection hs with hs; subst hs; exact ls32_append s k v h hv
+  · cases hs
+
+theorem ls32_update (s : Settings) (items : List (Int × Int)) (h : LS32 s)
+    (hi : ∀ kv ∈ items, 0 ≤ kv.2 ∧ kv.2 ≤ 4294967295) : LS32 (Settings.update s items).2 := by
+  induction items generalizing s with
+  | nil => exact h
+  | cons kv rest ih =>
+    obtain ⟨k, v⟩ := kv
+    unfold Settings.update
+    cases hsi : Settings.setItem s k v with
+    | ok s' =>
+      exact ih s' (ls32_setItem s k v h (hi (k, v) (List.mem_cons_self ..)) s' hsi)
+        (fun x hx => hi x (List.mem_cons_of_mem _ hx))
+    | error e => exact h
+
+theorem ls32_items (s : Settings) (h : LS32 s) : ∀ kv ∈ Settings.items s, 0 ≤ kv.2 ∧ kv.2 < 4294967296 := by
+  intro kv hkv
+  unfold Settings.items at hkv
+  simp only [List.mem_filterMap] at hkv
+  obtain ⟨e, he, hm⟩ := hkv
+  unfold LS32 at h
+  rw [List.all_eq_true] at h
+  have := h e he
+  split at hm
+  · rename_i v rest heq
+    injection hm with hm
+    subst hm
+    rw [heq] at this
+    simp only [List.all_cons, Bool.and_eq_true, optU32, decide_eq_true_eq] at this
+    exact ⟨this.1.1, by have := this.1.2; show v < 4294967296; omega⟩
+  · cases hm
+
+theorem ls32_acknowledge (s : Settings) (h : LS32 s) : LS32 (Settings.acknowledge s).2 := by
+  rw [acknowledge_snd]
+  unfold LS32 at *
+  rw [List.all_map]
+  rw [List.all_eq_true] at h ⊢
+  intro e he
+  have := h e he
+  simp only [Function.comp]
+  unfold popEntry
+  split
+  · rename_i x y r heq
+    rw [heq] at this
+    simp only [List.all_cons, Bool.and_eq_true] at this ⊢
+    exact this.2
+  · exact this
+
 /-- what `acknowledge()` reports: the new value passed validation; for a key that must have a current value the old
     value is not `None` -/
 theorem acknowledge_changes (s : Settings) (h : s.all entryOk = true) (k : Int) (old : Option Int) (new : Int)
